@@ -188,7 +188,10 @@ func (c *Cluster) WaitConverged(p, r *CNode, names []string, maxHeartbeats int64
 		}
 		// livelock: three stream sessions in a row that began after the faults
 		// stopped ended in an error
-		if ss := r.Client.Sessions(); len(ss) >= sess0+4 {
+		if ss := r.Client.Sessions(); len(ss) >= sess0+8 && !PosEqual(p, r, names) {
+			// eight reconnects after the faults stopped without catching up
+			return false, r.Client.Heartbeats.Load() - start, false
+		} else if len(ss) >= sess0+4 {
 			bad := 0
 			for _, s := range ss[sess0+1:] {
 				if s.Ended && (s.EndErr != "" && s.EndErr != "EOF" || s.OpenErr != "") {
